@@ -89,6 +89,8 @@ def tasks_for(tier):
         (dict(levy='space-time', size=(2,), cache_size=1, entropy=77), 'twin-objects', 2, mp, to),
         (dict(levy='davie', size=(1, 2), cache_size=45, entropy=5), 'twin-objects', 1, mp, to),
         (dict(levy='none', size=(), cache_size=0, entropy=123456789), 'twin-objects', 2, mp, to),
+        (dict(levy='space-time', size=(1,), entropy=0), 'twin-objects', 1, mp, to),          # boundary value of the seed
+        (dict(wrapper='tree', levy='none', size=(1,), tol=0.1, t1=Fraction(1, 2), entropy=0), 'twin-objects', 1, mp, to),
         (dict(levy='none', size=(), tol=0.1, halfway=True, t1=Fraction(1, 2)), 'dyadic', 1, mp, to),
         (dict(levy='davie', size=(1, 2), tol=0.1, halfway=True, t1=Fraction(1, 2)), 'dyadic', 1, mp, to),
         (dict(wrapper='tree', levy='none', size=(1,), tol=0.1, t1=Fraction(1, 2)), 'dyadic', 1, mp, to),
@@ -112,7 +114,7 @@ def run(ctx):
            '_Interval._randn_levy', '_Interval._a_seed', '_davie_foster_approximation', 'BrownianTree.__init__ / __call__')
     ctx.stubs += bshim.STUBS
     ctx.bounds = {'query sequence': '<=2 symbolic queries (twin objects)', 'dyadic mode': 'fresh object vs object with <=1 (quick) / <=2 arbitrary prior queries; tol=0.1 on [0,1] (depth <= 4), grid times',
-                  'shapes': '(), (1,), (2,), (1,2), (2,2)', 'entropies': 'a few concrete values'}
+                  'shapes': '(), (1,), (2,), (1,2), (2,2)', 'entropies': 'a few concrete values including 0'}
     ctx.assumptions += ['IEEE determinism of identical operation sequences', 'numpy SeedSequence is a function of (entropy, spawn_key, pool_size) (real object used)']
     ctx.outside += ['"different entropies give different paths" (avalanche property of a hash; not decidable symbolically)',
                     'entropy as a symbolic quantity (concrete entropies are used; SeedSequence is C code)']
